@@ -83,8 +83,21 @@ TLV_FUNCS = {
 CVN_PIDS = {"C08", "C13", "C14", "C15", "C16"}
 
 
+# corollaries that restate a property theorem about the definition translated from the source (module → names)
+SOURCE_THMS = {
+    "ac_generate_ac": ["source_generate_ac"], "ac_generate_arpc_1": ["source_generate_arpc_1"], "ac_generate_arpc_2": ["source_generate_arpc_2"],
+    "kd_derive_common_sk": ["source_derive_common_sk"], "kd_derive_visa_sm_sk": ["source_derive_visa_sm_sk"],
+    "kd_tree_sk": ["source_tree_sk", "source_tree_gate"], "sm_generate_command_mac": ["source_generate_command_mac"],
+    "sm_encrypt_command_data": ["source_encrypt_command_data"], "cvv_generate_cvc3": ["source_generate_cvc3"],
+}
+SOURCE_OF = {"C01": ["ac_generate_ac"], "C02": ["ac_generate_arpc_1", "ac_generate_arpc_2"], "C04": ["kd_derive_common_sk", "kd_derive_visa_sm_sk"],
+             "C05": ["kd_tree_sk"], "C06": ["sm_generate_command_mac"], "C07": ["sm_encrypt_command_data"], "C11": ["cvv_generate_cvc3"]}
+SOURCE_MODULE = {t: m for m, ts in SOURCE_THMS.items() for t in ts}
+
+
 def gen_obligations(pid):
     out = ["Pyemv.ModRefines." + n for n in MOD_FUNCS.get(pid, [])]
+    out += ["Pyemv.ModRefines." + t for m in SOURCE_OF.get(pid, []) for t in SOURCE_THMS[m]]
     out += ["Pyemv.TlvRefines." + n for n in TLV_FUNCS.get(pid, [])]
     if pid in CVN_PIDS:
         gen = json.load(open(os.path.join(LEAN, "obligations.json"))).get("C08_gen", [])
@@ -228,6 +241,9 @@ def obligations(pid, gen=True):
 
 
 def is_broken(name, broken):
+    last = name.split(".")[-1]
+    if last in SOURCE_MODULE and ("ModRefines." + SOURCE_MODULE[last]) in broken:
+        return True
     return any(("." + b + ".") in name or name.endswith("." + b) for b in broken)
 
 
@@ -241,7 +257,8 @@ def audit(pid, workdir, broken=()):
     imports = "import PyemvProps\n"
     for n in printable:
         if ".ModRefines." in n:
-            imports += "import PyemvGen.Mod." + n.split(".")[-1] + "\n"
+            last = n.split(".")[-1]
+            imports += "import PyemvGen.Mod." + SOURCE_MODULE.get(last, last) + "\n"
     if any(".CvnRefines." in n for n in printable):
         imports += "import PyemvGen.CvnRefines\n"
     for h in sorted({TLV_HALF[n.split(".")[-1]] for n in printable if ".TlvRefines." in n}):
